@@ -43,10 +43,17 @@ pub fn process(input: &ItemEnum, cratename: Path) -> syn::Result<TokenStream2> {
     let fields_body = optimize_fields_body(fields_body, has_unit_variant);
     generics_output.extend(&mut where_clause, &cratename);
 
+    // an enum without variants: `match self {}` is not exhaustive for a reference (E0004), `match *self {}` is
+    let scrutinee = if input.variants.is_empty() {
+        quote!(*self)
+    } else {
+        quote!(self)
+    };
+
     Ok(quote! {
         impl #impl_generics #cratename::ser::BorshSerialize for #enum_ident #ty_generics #where_clause {
             fn serialize<__W: #cratename::io::Write>(&self, writer: &mut __W) -> ::core::result::Result<(), #cratename::io::Error> {
-                let variant_idx: u8 = match self {
+                let variant_idx: u8 = match #scrutinee {
                     #all_variants_idx_body
                 };
                 writer.write_all(&variant_idx.to_le_bytes())?;
